@@ -230,15 +230,18 @@ def closeStream (c : Conn) (l : Nat) : Conn :=
     if s.state == .closed then c
     else closeTransport (putS c { s with state := .closed }) l
 
-/-- `AdbStream.read()` (all available data, at least one byte): drains buffered data, otherwise reads
-    messages for this stream until data arrives -/
-def readStream (l : Nat) : Nat → Conn → Conn × Except Err (List Nat)
+/-- `AdbStream.read(length)`: `length = 0` = all available data (at least one byte), else exactly `length` bytes;
+    buffered data is handed out first (also after the stream was closed: drain, then closed), otherwise messages
+    for this stream are read until enough data arrived; what is left over stays buffered for the next read -/
+def readStream (l : Nat) (len : Nat := 0) : Nat → Conn → Conn × Except Err (List Nat)
   | 0, c => (c, .error .timeout)
   | fuel+1, c =>
     match getS c l with
     | none => (c, .error .closed)
     | some s =>
-      if !s.buf.isEmpty then (putS c { s with buf := [] }, .ok s.buf)
+      if !s.buf.isEmpty && s.buf.length ≥ len then
+        (if len = 0 then (putS c { s with buf := [] }, .ok s.buf)
+         else (putS c { s with buf := s.buf.drop len }, .ok (s.buf.take len)))
       else
         let r := readForStream l (c.dev.length + 1) c
         match r.2 with
@@ -249,6 +252,6 @@ def readStream (l : Nat) : Nat → Conn → Conn × Except Err (List Nat)
           | some s1 =>
             match handleMessage s1 m true with
             | .error e => (r.1, .error e)
-            | .ok s2 => readStream l fuel (putS r.1 s2)
+            | .ok s2 => readStream l len fuel (putS r.1 s2)
 
 end OpenHTF.AdbConn
